@@ -15,9 +15,12 @@ from collections import Counter
 
 VERIF = os.path.dirname(os.path.dirname(os.path.abspath(__file__)))
 REPO = os.environ.get("VERIF_REPO", "/repo")
-EVIDENCE_DIR = os.path.join(VERIF, "evidence")
-REPLAY_DIR = os.path.join(VERIF, "replays")
 BUILD_DIR = os.path.join(VERIF, "build")
+# evidence and replays of the tree under test (/repo) live in /verif; runs against a scratch worktree
+# (VERIF_REPO, used to try seeded changes) must never overwrite them
+_SCRATCH = os.path.realpath(REPO) != "/repo"
+EVIDENCE_DIR = os.path.join(BUILD_DIR, "scratch", "evidence") if _SCRATCH else os.path.join(VERIF, "evidence")
+REPLAY_DIR = os.path.join(BUILD_DIR, "scratch", "replays") if _SCRATCH else os.path.join(VERIF, "replays")
 KNOWN_FINDINGS = os.path.join(VERIF, "known_findings.json")
 NPROC = int(os.environ.get("VERIF_NPROC", "16"))
 
